@@ -92,6 +92,11 @@ type c17State struct {
 
 	routeDrift bool
 	ifaceDrift map[string]bool
+	// keys of Felix-owned routes that other software overwrote behind Felix's back: until Felix
+	// re-reads the table it rightly treats the key as its own
+	contested map[string]bool
+	// a per-interface route listing failed since the last full resync
+	partialListFailed bool
 
 	counts map[string]int
 	faults []c17Fault
@@ -100,6 +105,7 @@ type c17State struct {
 
 	connectFails int
 	crashes      int
+	graceOver    bool // (probes) the clock was moved past the clean-up grace period
 
 	key, out     string
 	nontriv      bool
@@ -160,6 +166,9 @@ func (s *c17State) pre(call string) {
 			s.dp.FailuresToSimulate |= c17Flags[call+"/"+f.Mode]
 			s.fired++
 			s.lastCalls[len(s.lastCalls)-1] += "[FAULT " + f.Mode + "]"
+			if call == "RouteList" && f.Mode == "err" && !VerifFullResyncNeeded(s.rt) {
+				s.partialListFailed = true
+			}
 			if f.Mode == "notfound" {
 				// the environment lied to Felix about an interface; only a resync repairs its picture
 				s.routeDrift = true
@@ -248,7 +257,7 @@ func c17New(cfg c17Cfg) *c17State {
 		})
 	})
 	s := &c17State{cfg: cfg, dp: mocknetlink.New(), tm: mocktime.New(),
-		want: map[string]map[string]map[string]bool{}, foreign: map[string]string{}, ifaceDrift: map[string]bool{},
+		want: map[string]map[string]map[string]bool{}, foreign: map[string]string{}, ifaceDrift: map[string]bool{}, contested: map[string]bool{},
 		counts: map[string]int{}, badSeen: map[string]bool{}, nextIdx: 12}
 	s.pol = ownershippol.NewMainTable("vxlan.calico", unix.RTPROT_BOOT, []string{"cali"}, true, false)
 	s.dp.AddIface(2, "eth0", true, true)
@@ -453,6 +462,10 @@ func (s *c17State) checkForeign(where string) {
 
 func (s *c17State) checkExact(where string) {
 	got, want := s.owned(), s.resolved()
+	if s.partialListFailed {
+		// known finding: a failed per-interface route listing is treated as a successful rescan
+		where = "rescan-list-failure-swallowed:" + where
+	}
 	for k, w := range want {
 		g, ok := got[k]
 		if !ok {
@@ -469,6 +482,12 @@ func (s *c17State) checkExact(where string) {
 	}
 	for k, g := range got {
 		if _, ok := want[k]; !ok {
+			var idx int
+			_, _ = fmt.Sscanf(g, "dev=%d", &idx)
+			if s.cfg.Grace > 0 && !s.graceOver && strings.HasPrefix(s.ifaceNameOf(idx), "cali") {
+				// unexpected routes on workload interfaces are deliberately kept during the grace period
+				continue
+			}
 			s.fail(where+":stale-felix-route", "route %s {%s} is Felix-owned per the ownership policy, not desired, and still there; kernel: %s", k, g, s.kernelString())
 		}
 	}
@@ -507,6 +526,13 @@ func (s *c17State) apply(faults []c17Fault, where string) error {
 		// a full resync (interfaces + routes) completed: Felix has seen the kernel as it is
 		s.routeDrift = false
 		s.ifaceDrift = map[string]bool{}
+		s.partialListFailed = false
+		for k := range s.contested {
+			if r, ok := s.dp.RouteKeyToRoute[k]; ok && !c17Ours(s.ifaceNameOf(r.LinkIndex), &r) {
+				s.foreign[k] = c17RenderRoute(r)
+			}
+		}
+		s.contested = map[string]bool{}
 	}
 	s.checkForeign(where)
 	if err == nil && s.noDrift() {
@@ -583,10 +609,18 @@ func (s *c17State) purge(idx int) {
 
 func (s *c17State) addForeign(r netlink.Route) {
 	r.Table = unix.RT_TABLE_MAIN
-	s.dp.AddMockRoute(&r)
 	k := mocknetlink.KeyForRoute(&r)
 	name := s.ifaceNameOf(r.LinkIndex)
-	if !c17Ours(name, &r) {
+	if old, ok := s.dp.RouteKeyToRoute[k]; ok && c17Ours(s.ifaceNameOf(old.LinkIndex), &old) && !c17Ours(name, &r) {
+		s.contested[k] = true
+	}
+	if !c17Ours(name, &r) && VerifBelievesRouteAt(s.rt, RouteKey{CIDR: ip.CIDRFromIPNet(r.Dst), Priority: r.Priority}) {
+		// Felix still believes one of its own routes sits at this key (e.g. the kernel dropped it with
+		// the interface): it deletes/replaces by key, so the newcomer is not protected until Felix re-reads
+		s.contested[k] = true
+	}
+	s.dp.AddMockRoute(&r)
+	if !c17Ours(name, &r) && !s.contested[k] {
 		s.foreign[k] = c17RenderRoute(s.dp.RouteKeyToRoute[k])
 	}
 	s.routeDrift = true
@@ -627,6 +661,9 @@ func c17Apply(s *c17State, e c17Ev) {
 			s.sendSet("B", InterfaceNone)
 		}
 		s.routeDrift = false // the first Apply of a new RouteTable is a full resync anyway
+		if strings.Contains(e.Init, "synced") {
+			s.apply(nil, "init")
+		}
 	case "set":
 		w := s.wantSet(e.Class, e.Iface)
 		for k := range w {
@@ -744,8 +781,8 @@ func c17Points(calls []string, after map[string]int) []c17Fault {
 
 func c17Enabled(s *c17State, depth int) []c17Ev {
 	if depth == 0 {
-		return []c17Ev{{Op: "init", Init: "bare"}, {Op: "init", Init: "ifaces+foreign"}, {Op: "init", Init: "ifaces+foreign+want"},
-			{Op: "init", Init: "ifaces+foreign+stale"}, {Op: "init", Init: "ifaces+foreign+stale+want"}}
+		return []c17Ev{{Op: "init", Init: "bare"}, {Op: "init", Init: "ifaces+foreign"}, {Op: "init", Init: "ifaces+foreign+stale"},
+			{Op: "init", Init: "ifaces+foreign+want"}, {Op: "init", Init: "ifaces+foreign+want+synced"}, {Op: "init", Init: "ifaces+foreign+stale+want+synced"}}
 	}
 	var evs []c17Ev
 	add := func(e c17Ev) { evs = append(evs, e) }
@@ -835,6 +872,12 @@ func (s *c17State) computeKey() string {
 	for k := range s.ifaceDrift {
 		d = append(d, k)
 	}
+	for k := range s.contested {
+		d = append(d, "contested:"+k)
+	}
+	if s.partialListFailed {
+		d = append(d, "plf")
+	}
 	sort.Strings(d)
 	return "K:" + s.kernelString() + "|W:" + strings.Join(w, ",") + "|F:" + strings.Join(f, ",") +
 		fmt.Sprintf("|drift:%v/%s|open:%v|cf:%d|err:%v|", s.routeDrift, strings.Join(d, ","), s.dp.NetlinkOpen, s.connectFails, s.lastErr != nil) +
@@ -847,7 +890,14 @@ func c17Check(s *c17State, hist []c17Ev) []hbfs.Fail {
 	}
 	settle := func(where string) bool {
 		for i := 0; i < 4; i++ {
-			if err := s.apply(nil, where); err == nil {
+			err := s.apply(nil, where)
+			if s.cfg.Grace > 0 && !s.graceOver {
+				// let the clean-up grace period of every interface seen so far run out, then go again
+				s.tm.IncrementTime(s.cfg.Grace + time.Second)
+				s.graceOver = true
+				continue
+			}
+			if err == nil {
 				return true
 			}
 		}
@@ -863,6 +913,7 @@ func c17Check(s *c17State, hist []c17Ev) []hbfs.Fail {
 	// Probe B: a resync request and fault-free Applies: from ANY reachable state the kernel must end
 	// up with exactly the resolved desired routes among those Felix owns, everything else untouched.
 	s.rt.QueueResync()
+	s.graceOver = false
 	if settle("probe-resync") {
 		if !s.noDrift() {
 			s.fail("harness:drift-after-resync", "harness bookkeeping: drift still set after a successful full resync")
@@ -914,10 +965,11 @@ func TestVerif_C17(t *testing.T) {
 	logrus.SetLevel(logrus.PanicLevel)
 	logrus.SetOutput(c17Discard{})
 	vk.Run(t, "C17", func(c *vk.Ctx) {
-		c.Rule("states = (mocknetlink kernel: interfaces with index/oper state + main routing table, routes other software owns, desired routes per class/interface, RouteTable's internal view: inputs, conflict-resolution result, delta tracker desired/dataplane, interface maps, rescan set, resync flag, grace info, netlink connection state) over 3 CIDRs (two of them claimed by two route classes each), classes LocalWorkload (cali1, cali2), VXLANTunnel (vxlan.calico), BlackholeVXLAN (no interface), 5 starting kernels (bare / interfaces+foreign routes / +leftover Felix routes, each with or without an initial desired state); " +
+		c.Rule("states = (mocknetlink kernel: interfaces with index/oper state + main routing table, routes other software owns, desired routes per class/interface, RouteTable's internal view: inputs, conflict-resolution result, delta tracker desired/dataplane, interface maps, rescan set, resync flag, grace info, netlink connection state) over 3 CIDRs (two of them claimed by two route classes each), classes LocalWorkload (cali1, cali2), VXLANTunnel (vxlan.calico), BlackholeVXLAN (no interface), 6 starting kernels (bare / interfaces+foreign routes / +leftover Felix routes / with a desired state, not yet or already applied); " +
 			"transitions = one API call, an interface going down/up/away/re-created with a new index in the kernel (with or without the monitor telling Felix), the late notification, a route edit by other software (6 kinds), QueueResync, restart, or Apply with at most N injected netlink failures (fault points = every netlink call of that Apply x its failure modes, from a dry run); " +
 			"every state is followed by fault-free probe Applies without and with resync; non-trivial = Apply that wrote routes or hit a fault")
 		c.Assume("the kernel behaves like felix/netlinkshim/mocknetlink, extended in the harness with: RouteReplace through a missing/down interface is refused (ENODEV/ENETDOWN); routes of an interface that goes down or is deleted are dropped by the kernel")
+		c.Assume("other software does not take over, behind Felix's back, a route key at which Felix currently believes one of its own routes to sit (Felix deletes and replaces by key); such a newcomer is exempt from the 'foreign routes untouched' oracle until Felix has re-read the table. (Route edits by other software after start-up go beyond the property's quantifier anyway.)")
 		c.Assume("ownership = the real ownershippol.NewMainTable(vxlan.calico, RTPROT_BOOT, [cali], removeExternalRoutes=true) policy; a foreign route with exactly the key (dst, metric) of a desired Felix route is legitimately replaced (documented behaviour)")
 		c.Assume("conntrack clean-up is switched off (WithConntrackCleanup(false)); static ARP entries are not used; IPv4 only")
 		c.Assume("the 4th consecutive netlink connection failure makes Felix panic on purpose; the harness treats that as crash + restart, not as a violation")
@@ -949,7 +1001,7 @@ func TestVerif_C17(t *testing.T) {
 		}
 		if err := vk.Catch(func() error {
 			s := c17New(quick)
-			h := []c17Ev{{Op: "init", Init: "ifaces+foreign+stale+want"}, {Op: "apply"}, {Op: "k-if", Iface: "cali1", V: "del", Notify: true},
+			h := []c17Ev{{Op: "init", Init: "ifaces+foreign+stale+want+synced"}, {Op: "apply"}, {Op: "k-if", Iface: "cali1", V: "del", Notify: true},
 				{Op: "apply", Faults: []c17Fault{{Call: "RouteReplace", N: 1, Mode: "err"}}}}
 			var hs []string
 			for _, e := range h {
